@@ -347,6 +347,10 @@ def cmd_run(pid, tier, seed):
     mod = importlib.import_module("checks." + pid)
     run = Run(pid, tier, seed)
     spec = mod.SPEC
+    # replay files describe THIS run only: drop the ones an earlier run of this property left
+    for old in glob.glob(os.path.join(ROOT, "replays", f"{pid}-*.json")):
+        try: os.remove(old)
+        except OSError: pass
     findings = [f for f in load_findings() if f.get("property") == pid]
     run.coverage.update({"obligations": 0, "discharged": 0,
                          "checker_cmd": f"make -C coq && coqc Props/{pid}.v (Print Assumptions) && coqc cases_*.v",
